@@ -250,6 +250,10 @@ def build(prog: Dict[str, Any], seed: int = 0) -> Tuple[Any, str]:
         (m,) = list(m.children())
     if prog.get("dtype", "float32") != "float32":
         m = m.to(getattr(torch, prog["dtype"]))
+    if prog.get("freeze_first"):
+        ps = list(m.parameters())
+        if ps:
+            ps[0].requires_grad_(False)  # a frozen layer / frozen embedding
     return m, src
 
 
